@@ -202,7 +202,7 @@ let hybrid_ops mx dm : coq_Z hstate mops =
     m_count = (fun _ -> "-"); m_get = h_get; m_write = h_write;
     m_resize = (fun s z -> let (f, s') = h_resize s z in ((if f then "T" else "F"), s')) }
 let dynamic_ops : coq_Z dstate mops =
-  { m_init = (fun () -> d_init); m_shape = (fun s -> s.d_shape); m_strides = (fun s -> s.d_strides);
+  { m_init = (fun () -> d_init Z0); m_shape = (fun s -> s.d_shape); m_strides = (fun s -> s.d_strides);
     m_count = (fun s -> string_of_int (List.length s.d_data)); m_get = d_get; m_write = d_write;
     m_resize = (fun s z -> ("T", d_resize Z0 s z)) }
 let generic_ops k : coq_Z state mops =
@@ -239,9 +239,7 @@ let () =
           { model = legacy_run (generic_ops k) ops; spec = spec_run (spec_ops k c true) ops; dom = true }
         end else if ks = "dynamic" then begin
           let k = { sk = SDynamic; bk = BDynamic } in
-          (* every history prints the default-constructed object first, where shape () has product 1
-             but the object holds no element (finding dynamic-default-ctor): never in the theorem's domain *)
-          { model = legacy_run dynamic_ops ops; spec = spec_run (spec_ops k [] true) ops; dom = false }
+          { model = legacy_run dynamic_ops ops; spec = spec_run (spec_ops k [] true) ops; dom = true }
         end else failwith "legacy class"
     | _ -> failwith "lhist")
 
